@@ -401,6 +401,7 @@ func (w *c01World) key() string {
 	num(st.Length)
 	num(st.Alphabet)
 	num(st.Policy)
+	str(st.Extra) // fields this harness does not know by name (caches, memo tables): hidden state
 	firstBuf := map[uintptr]int{}
 	firstObj := map[uintptr]int{}
 	for i, r := range st.Rows {
@@ -843,6 +844,40 @@ func c01Ops() []c01Op {
 			return
 		}
 		w.relNames("TrimNamesAuto", nm, nil)
+	})
+	// --- every read-only query once: the container is unchanged for the caller, but a query may fill a cache
+	// (hidden state is part of the state key, so the histories through the state with the warm cache are explored)
+	add("observe", true, true, func(w *c01World) {
+		w.call(func() {
+			r := w.real
+			n := r.NbSequences()
+			for i := -1; i <= n; i++ {
+				r.GetSequenceNameById(i)
+				r.GetSequenceById(i)
+				r.GetSequenceCharById(i)
+			}
+			for _, x := range append(w.m.Rows.clone(), row{Name: "no-such-name"}) {
+				r.GetSequence(x.Name)
+				r.GetSequenceChar(x.Name)
+				r.GetSequenceIdByName(x.Name)
+				r.SequenceByName(x.Name)
+			}
+			r.Sequences()
+			r.Iterate(func(string, string) bool { return false })
+			r.IterateChar(func(string, []uint8) bool { return false })
+			r.Alphabet()
+			r.AlphabetStr()
+			r.LongestORF(false)
+			if a := w.al(); a != nil {
+				a.Length()
+				a.NbVariableSites()
+				a.CharStats()
+				if a.Length() > 0 && n > 0 {
+					a.RefCoordinates(w.m.Rows[0].Name, 0, 1)
+					a.Entropy(0, false)
+				}
+			}
+		})
 	})
 	// --- order
 	add("sort", true, true, func(w *c01World) {
